@@ -231,36 +231,69 @@ def rule_S4(ctx):
     res = RuleResult("S4", "context inspection checks the references of an entry before the "
                            "names the entry itself assigns become visible")
     prog = ctx.prog
-    f = None
-    for nf in prog.nested_functions:
-        if nf.qualname == "specs.base.Spec.inspect_context.inspect_ctx":
-            f = nf
-    if f is None:
-        raise AnalysisError("specs.base.Spec.inspect_context.inspect_ctx vanished")
-    check = None
-    update = None
-    for n in ast.walk(f.node):
-        if isinstance(n, ast.For) and "not in rolling_ctx" in unparse(n) and "errors.append" in unparse(n):
-            check = n
-        if isinstance(n, ast.If) and "_context_inputs" in unparse(n.test):
-            update = n
-    if check is None:
-        res.violated(("check",), _f("S4", f, f.node, "reference check",
-                                    "inspect_ctx no longer reports references to unassigned "
+    outer = prog.function("specs.base.Spec.inspect_context")
+    scope = [outer] + [nf for nf in prog.nested_functions
+                       if nf.qualname.startswith("specs.base.Spec.inspect_context.")]
+    checks, updates = [], []
+    for g in scope:
+        own_nested = [nf.node for nf in scope if nf is not g]
+        for n in ast.walk(g.node):
+            if any(n is x for o in own_nested for x in ast.walk(o)) and g is outer:
+                continue
+            # the reference check: a loop that reports names 'not in' the rolling context
+            if isinstance(n, ast.For) and "not in rolling_ctx" in unparse(n) and ".append" in unparse(n):
+                checks.append((g, n))
+            # the visibility update: the names an input/vars/publish/output entry assigns
+            if isinstance(n, (ast.If, ast.Return, ast.Assign)) and "_context_inputs" in unparse(
+                    n.test if isinstance(n, ast.If) else n):
+                updates.append((g, n))
+    if not checks:
+        res.violated(("check",), _f("S4", outer, outer.node, "reference check",
+                                    "inspect_context no longer reports references to unassigned "
                                     "variables"))
         return res
-    if update is None:
-        res.holds(("order",), "no visibility update in inspect_ctx")
+    if not updates:
+        res.holds(("order",), "no visibility update in inspect_context")
         return res
-    if check._ord < update._ord:
+    gc, check = checks[0]
+    gu, update = updates[0]
+    ok = None
+    if gc is gu:
+        ok = check._ord < update._ord
+        where = update
+    else:
+        # check and update live in different (nested) functions: the order of their calls in
+        # the common caller decides
+        def calls_of(g):
+            return [c for c in calls_in(outer.node) if callee_name(c) == g.name]
+        cc = calls_of(gc) if gc is not outer else [check]
+        cu = calls_of(gu) if gu is not outer else [update]
+        where = cu[0] if cu else update
+        if cc and cu:
+            ok = all(any(c._ord < u._ord and _same_block(c, u) for c in cc) for u in cu)
+        else:
+            raise AnalysisError("inspect_context: cannot relate the reference check and the "
+                                "visibility update")
+    if ok:
         res.holds(("order",), "references are checked before the entry's own names are added")
     else:
         res.violated(("order",), _f(
-            "S4", f, update, "order of reference check and visibility update",
+            "S4", outer, where, "order of reference check and visibility update",
             "the names assigned by an input/vars/publish/output entry are added to the known "
             "context before that entry's own references are checked: an entry that references "
             "the variable it assigns (count: <% ctx().count + 1 %>) passes inspection"))
     return res
+
+
+def _same_block(a, b):
+    """The statements holding a and b sit in the same statement list."""
+    def stmt_of(n):
+        while n is not None and not isinstance(n, ast.stmt):
+            n = getattr(n, "_parent", None)
+        return n
+    sa_, sb_ = stmt_of(a), stmt_of(b)
+    pa, pb = getattr(sa_, "_parent", None), getattr(sb_, "_parent", None)
+    return pa is pb
 
 
 def rule_S5(ctx):
